@@ -72,14 +72,15 @@ def rotate(shards, seed):
     return shards[k:] + shards[:k]
 
 
-def run_shards(run, worker_fn, shards, seed=0, jobs=None, chunksize=1, shard_limit=900):
+def run_shards(run, worker_fn, shards, seed=0, jobs=None, chunksize=1, shard_limit=900, first=()):
     """worker_fn(shard, partial) is executed for every shard; results are merged
     into `run`.  worker_fn must be a module-level function (fork start method
     means it need not be picklable, it is inherited)."""
     global _WORKER_FN, _SHARD_LIMIT
     _WORKER_FN = worker_fn
     _SHARD_LIMIT = int(os.environ.get("VERIF_SHARD_LIMIT", shard_limit))
-    shards = rotate(shards, seed)
+    # `first`: long shards that must start early for load balance (their order is fixed; only the rest is rotated)
+    shards = list(first) + rotate(shards, seed)
     jobs = jobs or nprocs()
     stop_after = int(os.environ.get("VERIF_STOP_AFTER", "150"))
 
